@@ -23,6 +23,23 @@ def parseT (a : Array String) (off : Nat) : T Float × Nat :=
   let rshape := shape.reverse
   (⟨rshape, fun idx => data.getD (ravel rshape idx) 0⟩, base + size)
 
+/-- complex tensor: data tokens are `re im re im …` -/
+def parseTC (a : Array String) (off : Nat) : T CF × Nat :=
+  let nd := tokNat a off
+  let shape := (List.range nd).map fun i => tokNat a (off + 1 + i)
+  let size := prodList shape
+  let base := off + 1 + nd
+  let data : Array CF := Array.ofFn (n := size) fun i => ⟨tokFloat a (base + 2 * i.val), tokFloat a (base + 2 * i.val + 1)⟩
+  let rshape := shape.reverse
+  (⟨rshape, fun idx => data.getD (ravel rshape idx) ⟨0, 0⟩⟩, base + 2 * size)
+
+def fmtTC (t : T CF) : String :=
+  let size := prodList t.rshape
+  let shape := t.rshape.reverse
+  let head := fmtNats (shape.length :: shape)
+  let body := fmtFloats ((List.range size).flatMap fun o => let z := t.get (unravel t.rshape o); [z.re, z.im])
+  if size == 0 then head else head ++ " " ++ body
+
 def parseNats (a : Array String) (off : Nat) : List Nat × Nat :=
   let n := tokNat a off
   ((List.range n).map fun i => tokNat a (off + 1 + i), off + 1 + n)
@@ -176,6 +193,66 @@ def opsTensor (a : Array String) : Option String :=
       | "diagonal-noreshape" => diagonalPostInitNoReshape cov
       | _ => sphericalPostInit d cov
     some (fmtT pc ++ " | " ++ fmtT ld)
+  | "vmffit" =>
+    -- vmffit hasSal tiny minC maxC Y [S]  ->  mean | concentration
+    let hasSal := tokNat a 1 == 1
+    let (y, o) := parseT a 5
+    let sal := if hasSal then some (parseT a o).1 else none
+    let (m, c) := vmfFit (tokFloat a 2) (tokFloat a 3) (tokFloat a 4) y sal
+    some (fmtT m ++ " | " ++ fmtT c)
+  | "vmflogpdf" =>
+    -- vmflogpdf tiny MEAN CONC LOGNORM Y
+    let (mean, o) := parseT a 2
+    let (conc, o) := parseT a o
+    let (ln, o) := parseT a o
+    let (y, _) := parseT a o
+    some (fmtT (vmfLogPdf (tokFloat a 1) mean conc ln y))
+  | "scatter" =>
+    -- scatter floorDen hasSal Y(complex) [S]
+    let floorDen := if tokNat a 1 == 1 then some tinyT else none
+    let hasSal := tokNat a 2 == 1
+    let (y, o) := parseTC a 3
+    let sal := if hasSal then some (parseT a o).1 else none
+    some (fmtTC (scatter floorDen y sal))
+  | "watsonlogpdf" =>
+    -- watsonlogpdf MODE(complex) CONC LOGNORM Y(complex)
+    let (mode, o) := parseTC a 1
+    let (conc, o) := parseT a o
+    let (ln, o) := parseT a o
+    let (y, _) := parseTC a o
+    some (fmtT (watsonLogPdf mode conc ln y))
+  | "binghamlogpdf" =>
+    -- binghamlogpdf VECS(complex) VALS LOGNORM Y(complex)
+    let (vecs, o) := parseTC a 1
+    let (vals, o) := parseT a o
+    let (ln, o) := parseT a o
+    let (y, _) := parseTC a o
+    some (fmtT (binghamLogPdf vecs vals ln y))
+  | "cacgnorm" =>
+    let (y, _) := parseTC a 1
+    some (fmtTC (cacgNormalize tinyT y))
+  | "cacgstart" =>
+    let (y, _) := parseTC a 1
+    some (fmtT (cacgStartQuadraticForm (α := Float) y))
+  | "cacgcov" =>
+    -- cacgcov hermitize hasSal Y(complex, (..., D, N)) [S] Q
+    let herm := tokNat a 1 == 1
+    let hasSal := tokNat a 2 == 1
+    let (y, o) := parseTC a 3
+    let (sal, o) := if hasSal then let r := parseT a o; (some r.1, r.2) else (none, o)
+    let (q, _) := parseT a o
+    some (fmtTC (cacgFitCovariance tinyT herm y sal q))
+  | "cacgeig" =>
+    -- cacgeig floor VALS
+    let (vals, _) := parseT a 2
+    some (fmtT (cacgEigenvalueNorm tinyT (tokFloat a 1) vals))
+  | "cacglogpdf" =>
+    -- cacglogpdf VECS(complex) VALS Y(complex, (..., D, T))  ->  log_pdf | quadratic_form
+    let (vecs, o) := parseTC a 1
+    let (vals, o) := parseT a o
+    let (y, _) := parseTC a o
+    let (lp, q) := cacgLogPdf tinyT vecs vals y
+    some (fmtT lp ++ " | " ++ fmtT q)
   | _ => none
 
 end Driver
